@@ -70,6 +70,19 @@ def showState (s : St) : String :=
   s!"ctl={repr s.ctl.pc}|paused={showBool s.ctl.paused}|stopped={showBool s.ctl.stopped}" ++
   s!"|must={showBool s.ctl.mustStop}|att={s.ctl.attempt} thr=" ++ showList showThread s.thr
 
+/-- Coverage key of an action taken in state `s`: the action constructor and the program counter of the
+thread that takes it (for `wRet`, the control thread's). Reported by `proto cov`. -/
+def covKey (s : St) (toks : List String) : Option String :=
+  match parseAct toks with
+  | none => none
+  | some a =>
+    let label := toks.head?.getD "?" ++ (match a with
+      | .bCbBegin _ k | .bCbEnd _ k | .bCbRaise _ k => ":" ++ toString (repr k)
+      | _ => "")
+    match a.thread with
+    | some t => (s.thr[t]?).map fun th => s!"{label}@{repr th.pc}"
+    | none => some s!"{label}@{repr s.ctl.pc}"
+
 /-- Executable form of the C01 statement, evaluated by the follower on every visited state. -/
 def quiescentWhenPaused (s : St) : Bool :=
   !s.ctl.paused || (s.clockPaused && s.thr.all fun th => th.inCb.isNone && th.pausedFlag)
